@@ -283,7 +283,10 @@ impl<'arena, 'input: 'arena> Lexer<'arena, 'input> {
             } else if c == b'\\' {
                 has_escape = true;
                 if buffer.is_empty() {
-                    buffer.reserve_exact(bytes.len());
+                    // Reserve up to the next quote or line break, not the rest of the source:
+                    // the string is only longer if it holds an escaped quote, and then it grows
+                    let hint = memchr2(quote, b'\n', bytes, quote_or_escape + 2).min(newline);
+                    buffer.reserve_exact(hint);
                     // SAFETY: beg..pos is valid UTF-8 because we only process valid string content
                     let string = unsafe { str::from_utf8_unchecked(&self.src[beg..pos]) };
                     buffer.push_str(string);
